@@ -231,6 +231,21 @@ Proof.
     [rewrite andb_false_r|]; reflexivity.
 Qed.
 
+(* objcopy --only-keep-debug + --add-gnu-debuglink: the debug file is the original with the
+   contents of the unobserved sections dropped; the stripped file shows the original's view *)
+Corollary keep_debug_workflow es name pad crc off tail load dbg e fill :
+  presence es true = false -> debuglink_ok name pad crc = true ->
+  load name = Some dbg -> crc32_poly dbg = crc -> parse dbg = Some (T_keep_debug fill e) ->
+  forall fuel relocate,
+  debug_view (S fuel) (Some load)
+             (add_section (debuglink_sec (e_le es) name pad crc off tail) es) relocate true
+  = debug_view fuel (Some load) e relocate true.
+Proof.
+  intros Hp Hok Hload Hcrc Hparse fuel relocate.
+  rewrite (debuglink_view es name pad crc off tail load dbg _ Hp Hok Hload Hcrc Hparse).
+  apply keep_debug_view_invariant.
+Qed.
+
 (* ---------- supplementary file ---------- *)
 Lemma read_slots_length e relocate : forall ns sl,
   read_slots e relocate ns = Some sl -> length sl = length ns.
